@@ -41,7 +41,10 @@ def judge(ctx, mode, seed, first, length, tf, viol, stats):
         if any(v[1].startswith("LegalUse") for v in vs):
             raise vlib.ToolFailure("generated sequence makes an illegal call (%s)" % vs[0][1])
         idx = first + (t - 1) // 2
-        hard = [v for v in vs if v[1].startswith("WithDeviation.") or v[1].startswith("ExecutionResult")]
+        # an execution result that differs after a call the recorded deviation explains is its consequence (the interpreter
+        # was given the surviving storage value); before such a call it is a difference of its own
+        soft = [v[0] for v in vs if not v[1].startswith("WithDeviation.") and not v[1].startswith("ExecutionResult")]
+        hard = [v for v in vs if v[1].startswith("WithDeviation.") or (v[1].startswith("ExecutionResult") and not (soft and soft[0] < v[0]))]
         if lines is None:
             lines = open(tf).read().splitlines()
         if hard:
